@@ -349,6 +349,9 @@ func (c *Client) GetRefs(prefixes, notPrefixes []string, opts ...RequestOption) 
 	}
 	m = map[string][]byte{}
 	for k, v := range rr.Refs {
+		if v == nil {
+			return nil, fmt.Errorf("null sum for ref %q", k)
+		}
 		m[k] = (*v)[:]
 	}
 	return
@@ -501,6 +504,13 @@ func parseUploadPackResult(r io.ReadCloser) (upr *payload.UploadPackResponse, er
 	err = json.Unmarshal(b, upr)
 	if err != nil {
 		return nil, err
+	}
+	for _, sl := range [][]*payload.Hex{upr.ACKs, upr.TableHaves} {
+		for _, sum := range sl {
+			if sum == nil {
+				return nil, fmt.Errorf("null sum in upload pack response")
+			}
+		}
 	}
 	return upr, nil
 }
